@@ -29,8 +29,9 @@ META = {
             "rank on the real init functions, every rank's rank_of / data_of / data_key / rank_of_key / data_of_key / "
             "vpid_of tables are dumped and TLC validates them against the same predicates (exactly one valid owner per "
             "tile across all views, injective non-overlapping local storage, key round trips, vpid in range).",
-    "note": "Model box: P,Q <= 3, k <= 2, <= 4x3 stored tiles, tile offsets <= 1 (quick), larger for thorough. Real code: "
-            "quick ~230 configurations (<= 16 ranks, <= 8x8 tiles), thorough ~3000. Symmetric distributions are exercised "
+    "note": "Model box: P <= 3, Q <= 2, k <= 2, <= 4x3 stored tiles, tile offsets <= 1 (quick); P <= 4, Q <= 3, <= 5x4 tiles "
+            "(thorough). Real code: quick ~210 configurations (+ a third of them again under 4 VPs; <= 9 ranks, <= 6x6 tiles), "
+            "thorough ~1600 (<= 16 ranks, <= 8x8 tiles). Symmetric distributions are exercised "
             "on square matrices with square tiles and diagonal submatrices only; band with the off-band covering the whole "
             "matrix as in tests/collections/two_dim_band. Trusted: TLC, the harness' table dump.",
     "technique": "TLA+ consistency predicates + model of the distribution arithmetic (TLC exhaustive box) + table dumps "
@@ -141,7 +142,7 @@ def run(ctx):
     rng = ctx.rng
     # ---- 1. the model on the box --------------------------------------------------------------------
     box = {"MaxP": 3, "MaxQ": 2, "MaxK": 2, "MaxLMT": 4, "MaxLNT": 3, "MaxOff": 1} if ctx.quick else \
-          {"MaxP": 4, "MaxQ": 4, "MaxK": 3, "MaxLMT": 6, "MaxLNT": 5, "MaxOff": 2}
+          {"MaxP": 4, "MaxQ": 3, "MaxK": 2, "MaxLMT": 5, "MaxLNT": 4, "MaxOff": 1}
     mod, cfg = mcgen.write_mc(d, "bcbox", "BlockCyclic", box,
                               invariants=("ModelConsistent", "ModelCountsExact", "Emit"))
     r = ctx.tlc_check(d, mod, cfg, must_cover=("ChooseGrid", "InitPlain", "InitKCyclic"), workers=2, timeout=3000)
@@ -152,7 +153,7 @@ def run(ctx):
     if not model_cfgs:
         raise tlc.TLCError("the box printed no configuration")
     # ---- 2. configurations for the real code ----------------------------------------------------------
-    n_box, n_rand = (90, 20) if ctx.quick else (1200, 300)
+    n_box, n_rand = (90, 20) if ctx.quick else (700, 150)
     cfgs = [from_model(mc, rng) for mc in rng.sample(model_cfgs, min(n_box, len(model_cfgs)))]
     for kind in ("2dbc", "kview", "sym", "band", "tabular", "vector"):
         for _ in range(n_rand):
